@@ -5,8 +5,8 @@ package main
 
 import (
 	"fmt"
-	"math/big"
 	"go/types"
+	"math/big"
 	"os"
 	"path/filepath"
 	"sort"
@@ -20,15 +20,15 @@ import (
 const modPath = "github.com/xinchentechnote/fin-proto-go"
 
 type Verifier struct {
-	repo      string
-	verifDir  string
-	prog      *ssa.Program
-	pkgs      map[string]*ssa.Package
-	lpkgs     map[string]*packages.Package
-	files     map[string]*ContractFile // by package path
-	contracts map[string]*FuncContract // pkgpath + "." + short name
-	tableFuncs map[string]*TableInfo
-	tables    map[string]*TableInfo // by pkgpath + "." + table name
+	repo            string
+	verifDir        string
+	prog            *ssa.Program
+	pkgs            map[string]*ssa.Package
+	lpkgs           map[string]*packages.Package
+	files           map[string]*ContractFile // by package path
+	contracts       map[string]*FuncContract // pkgpath + "." + short name
+	tableFuncs      map[string]*TableInfo
+	tables          map[string]*TableInfo // by pkgpath + "." + table name
 	assumptionsUsed map[string]bool
 	trustedUsed     map[string]bool
 	globalAccess    map[string]map[string]map[string]bool // function -> global -> {read,write}
